@@ -104,12 +104,8 @@ def api(l, p, hint=None):
     if l == "z":
         return N().block(*p)
     if l == "T":
-        if p[0] == "raw":
-            return N().tx.from_bin(p[1])
         return build_tx(N().tx, p)
     if l == "B":
-        if p[0] == "raw":
-            return N().block.from_bin(p[1])
         b = N().block(*p[0])
         b.set_txs([build_tx(N().tx, t) for t in p[1]], check_merkle_hash=False)
         return b
@@ -314,19 +310,21 @@ def check_msg_record(rec):
         fails.append(("C16|msg|%s|%s|%s" % (name, call, what),
                       "%s(%r, ...): %s" % (call, name, what),
                       {"call": call, "what": what, "detail": detail,
-                       "case": rec if len(repr(rec)) < 6000 else {"name": name, "fields": _short(fields, 3000), "bytes": _short(rec["bytes"], 1500)}}))
+                       "case": rec if len(repr(rec)) < 300000 else {"name": name, "fields": _short(fields, 3000), "bytes": _short(rec["bytes"], 1500)}}))
 
-    # ---- pack
+    # ---- pack (real transactions / blocks, given to the spec as bytes, are built from the abstract form the
+    #      SPEC parsed them into - never through the library's own parser)
+    got = None
     try:
-        kwargs = {f["n"]: api_field(f["t"], f["v"]) for f in fields}
-    except Exception as e:
-        from ..ctx import MachineryError
-        raise MachineryError("cannot build the arguments of case %s: %s %s" % (name, type(e).__name__, e))
-    try:
-        got = M.pack(name, **kwargs)
-    except Exception as e:
-        fail("pack", "exc=" + type(e).__name__, repr(e)[:300])
-        got = None
+        kwargs = {f["n"]: api_field(f["t"], f["v"]) for f in pf}
+    except Exception as e:      # a constructor of the library refuses a value of the declared type
+        fail("construct", "exc=" + type(e).__name__, repr(e)[:300])
+        kwargs = None
+    if kwargs is not None:
+        try:
+            got = M.pack(name, **kwargs)
+        except Exception as e:
+            fail("pack", "exc=" + type(e).__name__, repr(e)[:300])
     if got is not None and got != want_bytes:
         fail("pack", "bytes-differ|field=" + first_diff_field(seq(rec["sizes"]), names, want_bytes, got),
              {"want": want_bytes[:400].hex(), "got": bytes(got)[:400].hex(), "want_len": len(want_bytes), "got_len": len(got)})
@@ -405,11 +403,17 @@ def check_codec_record(rec):
         fails.append(("C16|codec|%s|%s|%s" % (l, call, what), "streamer.%s(%r, ...): %s" % (call, l, what),
                       {"call": call, "what": what, "detail": detail, "case": rec}))
 
+    got = None
     try:
-        got = S.pack_struct(l, api(l, p, _hint(l, rec["v"])))
+        o = api(l, p, _hint(l, rec["v"]))
     except Exception as e:
-        fail("pack", "exc=" + type(e).__name__, repr(e)[:300])
-        got = None
+        fail("construct", "exc=" + type(e).__name__, repr(e)[:300])
+        o = None
+    if o is not None or l == "O":
+        try:
+            got = S.pack_struct(l, o)
+        except Exception as e:
+            fail("pack", "exc=" + type(e).__name__, repr(e)[:300])
     if got is not None and got != want_bytes:
         fail("pack", "bytes-differ", {"want": want_bytes[:100].hex(), "got": bytes(got)[:100].hex()})
     for tail in ((b"",) if l == "O" else (b"", b"\xaa\x00")):
